@@ -22,6 +22,8 @@ def v(k, x):
 x = [10, 20, 30, 40]
 d = {'a': 1, 'b': 2}
 o = O()
+o2 = O()
+import sys as sysm
 o.a = 5
 o.b = [1, 2, 3]
 def vx(k):
@@ -94,6 +96,11 @@ func (c *c01Gen) leafInt() string {
 		return fmt.Sprintf("v(%d, %s)", c.k(), c.vars[c.g.N(len(c.vars))])
 	}
 	return fmt.Sprintf("v(%d, %d)", c.k(), c.g.Ints(0, 1, 2, 3, -1, -2, 5, 7))
+}
+
+// leafObj is a logging leaf whose value is an object of any kind, including kinds without an __eq__ of their own
+func (c *c01Gen) leafObj() string {
+	return fmt.Sprintf("v(%d, %s)", c.k(), c.g.Str("None", "f", "g2", "O", "o", "o2", "len", "sysm", "0", "'a'", "()", "[]", "True", "x", "d", "f", "o", "None"))
 }
 
 func (c *c01Gen) smallNonNeg() string {
@@ -185,7 +192,26 @@ func (c *c01Gen) expr(t c01Type, depth int) string {
 			return "abs(" + c.expr(tInt, depth-1) + ")"
 		}
 	case tBool:
-		switch g.Weighted(4, 3, 2, 2, 1) {
+		switch g.Weighted(4, 3, 2, 2, 1, 3) {
+		case 5:
+			// comparisons, identity and membership over objects of every kind, most of which define no __eq__ of their own
+			// (functions, classes, modules, instances, None): == and != fall back to identity, ordering is a TypeError
+			c.use("compare-any")
+			a, b := c.leafObj(), c.leafObj()
+			switch g.Weighted(4, 2, 2, 1) {
+			case 0:
+				return "(" + a + " " + g.Str("==", "!=", "==", "!=", "is", "is not") + " " + b + ")"
+			case 1:
+				op := g.Str("in", "not in")
+				if g.Bool() {
+					return "(" + a + " " + op + " (" + b + ", " + c.leafObj() + "))"
+				}
+				return "(" + a + " " + op + " [" + b + ", " + c.leafObj() + "])"
+			case 2:
+				return "((" + a + ", " + c.leafObj() + ") " + g.Str("==", "!=") + " (" + b + ", " + c.leafObj() + "))"
+			default:
+				return "(" + a + " " + c01CmpOps[g.N(4)] + " " + b + ")"
+			}
 		case 0:
 			c.use("compare")
 			return "(" + c.expr(tInt, depth-1) + " " + c01CmpOps[g.N(6)] + " " + c.expr(tInt, depth-1) + ")"
